@@ -10,12 +10,15 @@ Helper lemmas for property C07 about the model `PygyroVerif.Model.BSpline`
   * `U`, `P`, `Q`, `U_eq`, `U_deriv`         degree-lowering derivative identity in an abstract differential ring
 -/
 import PygyroVerif.Model.BSpline
+import PygyroVerif.Model.CubicUniform
 import Mathlib.Tactic.Ring
 import Mathlib.Tactic.FieldSimp
 import Mathlib.Tactic.Linarith
 import Mathlib.Tactic.LinearCombination
 import Mathlib.Algebra.Order.Ring.Nat
 import Mathlib.Algebra.BigOperators.Group.List.Basic
+import Mathlib.Algebra.Polynomial.Derivative
+import Mathlib.Algebra.Polynomial.Eval.Defs
 
 set_option linter.unusedSectionVars false
 
@@ -359,6 +362,202 @@ theorem basisOrDer_length (t : ℕ → K) (p : ℕ) (x : K) (span : ℕ) (der : 
   · simp [basisFuns_length]
   · simp [basisFunsDer]
 
+/-! ### the left-continuous convention (right end point of the domain) -/
+
+/-- left-continuous Cox–de Boor functions (cells `(t_i, t_{i+1}]`): the convention that gives the value of the
+    spline at the right end point of the domain (limit from inside) -/
+def Nleft (t : ℕ → K) : ℕ → ℕ → K → K
+  | 0, i, x => if t i < x ∧ x ≤ t (i+1) then 1 else 0
+  | p+1, i, x =>
+      (if t (i+p+1) - t i = 0 then 0 else (x - t i) / (t (i+p+1) - t i) * Nleft t p i x) +
+      (if t (i+p+2) - t (i+1) = 0 then 0 else (t (i+p+2) - x) / (t (i+p+2) - t (i+1)) * Nleft t p (i+1) x)
+
+theorem Nleft_support (t : ℕ → K) (ht : Monotone t) :
+    ∀ (p i : ℕ) (x : K), (x ≤ t i ∨ t (i+p+1) < x) → Nleft t p i x = 0
+  | 0, i, x, h => by
+    simp only [Nleft]
+    rcases h with h | h
+    · rw [if_neg]; intro ⟨h1, _⟩; exact absurd h (not_le.mpr h1)
+    · rw [if_neg]; intro ⟨_, h2⟩; exact absurd h2 (not_le.mpr (by simpa using h))
+  | p+1, i, x, h => by
+    simp only [Nleft]
+    have e1 : (if t (i+p+1) - t i = 0 then 0 else (x - t i) / (t (i+p+1) - t i) * Nleft t p i x) = 0 := by
+      split_ifs with hz
+      · rfl
+      · rcases h with h | h
+        · rw [Nleft_support t ht p i x (Or.inl h)]; ring
+        · have : t (i+p+1) < x := lt_of_le_of_lt (ht (by omega)) h
+          rw [Nleft_support t ht p i x (Or.inr this)]; ring
+    have e2 : (if t (i+p+2) - t (i+1) = 0 then 0
+        else (t (i+p+2) - x) / (t (i+p+2) - t (i+1)) * Nleft t p (i+1) x) = 0 := by
+      split_ifs with hz
+      · rfl
+      · rcases h with h | h
+        · have : x ≤ t (i+1) := le_trans h (ht (by omega))
+          rw [Nleft_support t ht p (i+1) x (Or.inl this)]; ring
+        · have : t (i+1+p+1) < x := by
+            have e : i+1+p+1 = i+(p+1)+1 := by omega
+            rw [e]; exact h
+          rw [Nleft_support t ht p (i+1) x (Or.inr this)]; ring
+    rw [e1, e2]; ring
+
+/-- away from the knots the two conventions coincide -/
+theorem Nleft_eq_N (t : ℕ → K) (x : K) (hx : ∀ i, x ≠ t i) : ∀ (p i : ℕ), Nleft t p i x = N t p i x
+  | 0, i => by
+    simp only [Nleft, N]
+    have h1 := hx i
+    have h2 := hx (i+1)
+    congr 1
+    apply propext
+    constructor
+    · intro ⟨a, b⟩; exact ⟨le_of_lt a, lt_of_le_of_ne b h2⟩
+    · intro ⟨a, b⟩; exact ⟨lt_of_le_of_ne a (Ne.symm h1), le_of_lt b⟩
+  | p+1, i => by
+    simp only [Nleft, N]
+    rw [Nleft_eq_N t x hx p i, Nleft_eq_N t x hx p (i+1)]
+
+/-- A2.2 on the half-open cell `(t_span, t_{span+1}]` computes the left-continuous functions -/
+theorem levels_eq_Nleft (t : ℕ → K) (ht : Monotone t) (span : ℕ) (x : K)
+    (hx1 : t span < x) (hx2 : x ≤ t (span+1)) :
+    ∀ j, j ≤ span → ∀ r, r ≤ j →
+      (levels (leftOf t span x) (rightOf t span x) j).getD r 0 = Nleft t j (span - j + r) x := by
+  apply levels_eq_table t ht span x (lt_of_lt_of_le hx1 hx2) (fun p i => Nleft t p i x)
+  · intro p i; simp only [Nleft]
+  · simp [Nleft, hx1, hx2]
+  · intro j hj
+    apply Nleft_support t ht
+    right
+    have : span - (j+1) + j + 1 = span := by omega
+    rw [this]; exact hx1
+  · intro j
+    exact Nleft_support t ht j (span+1) x (Or.inl hx2)
+
+theorem dot_basis_eq_sum_Nleft (t : ℕ → K) (ht : Monotone t) (p span : ℕ) (x : K)
+    (hp : p ≤ span) (hx1 : t span < x) (hx2 : x ≤ t (span + 1)) (n : ℕ) (hn : span + 1 ≤ n) (c : ℕ → K) :
+    ((List.range (p + 1)).map (fun j => c (span - p + j) * (basisFuns t p x span).getD j 0)).sum
+      = ((List.range n).map (fun i => c i * Nleft t p i x)).sum := by
+  rw [sum_range_support (fun i => c i * Nleft t p i x) n (span - p) (p + 1) (by omega)]
+  · apply congrArg
+    apply List.map_congr_left
+    intro j hj
+    have hj' : j ≤ p := by have := List.mem_range.mp hj; omega
+    show c (span - p + j) * (levels (leftOf t span x) (rightOf t span x) p).getD j 0 = _
+    rw [levels_eq_Nleft t ht span x hx1 hx2 p hp j hj']
+  · intro i _ hi
+    rcases hi with hi | hi
+    · have : t (i + p + 1) < x := lt_of_le_of_lt (ht (by omega)) hx1
+      rw [Nleft_support t ht p i x (Or.inr this)]; ring
+    · have : x ≤ t i := le_trans hx2 (ht (by omega))
+      rw [Nleft_support t ht p i x (Or.inl this)]; ring
+
+/-! ### translation invariance (periodic knots) -/
+
+theorem innerLoop_congr (l l' r r' : ℕ → K) (j : ℕ) : ∀ (vs : List K) (r0 : ℕ) (s : K),
+    (∀ i, r0 ≤ i → i < r0 + vs.length → r i = r' i ∧ l (j - i) = l' (j - i)) →
+    innerLoop l r j r0 vs s = innerLoop l' r' j r0 vs s
+  | [], _, _, _ => rfl
+  | v :: vs, r0, s, h => by
+    obtain ⟨h1, h2⟩ := h r0 (le_refl _) (by simp)
+    simp only [innerLoop, h1, h2]
+    rw [innerLoop_congr l l' r r' j vs (r0+1) _ (fun i hi hlt => h i (by omega) (by simp at hlt ⊢; omega))]
+
+/-- the triangle only reads `left[k]`, `right[k]` for `k < p` -/
+theorem levels_congr (l l' r r' : ℕ → K) (p : ℕ) (hl : ∀ k, k < p → l k = l' k) (hr : ∀ k, k < p → r k = r' k) :
+    levels l r p = levels l' r' p := by
+  induction p with
+  | zero => rfl
+  | succ p ih =>
+    simp only [levels]
+    rw [ih (fun k hk => hl k (by omega)) (fun k hk => hr k (by omega))]
+    apply innerLoop_congr
+    intro i _ hi
+    rw [levels_length] at hi
+    exact ⟨hr i (by omega), hl _ (by omega)⟩
+
+/-- translation invariance: on knots with `t_{i+n} = t_i + L` the basis values of cell `span+n` at `x+L` are those of
+    cell `span` at `x` (A2.2 only uses differences `x - t_i`) -/
+theorem basisFuns_shift (t : ℕ → K) (n : ℕ) (L : K) (hper : ∀ i, t (i + n) = t i + L) (p span : ℕ)
+    (hp : p ≤ span + 1) (x : K) : basisFuns t p (x + L) (span + n) = basisFuns t p x span := by
+  unfold basisFuns
+  apply levels_congr
+  · intro k hk
+    simp only [leftOf]
+    have : span + n - k = span - k + n := by omega
+    rw [this, hper]; ring
+  · intro k _
+    simp only [rightOf]
+    have : span + n + 1 + k = span + 1 + k + n := by omega
+    rw [this, hper]; ring
+
+theorem basisFunsDer_shift (t : ℕ → K) (n : ℕ) (L : K) (hper : ∀ i, t (i + n) = t i + L) (p span : ℕ)
+    (hp : p ≤ span + 1) (x : K) : basisFunsDer t p (x + L) (span + n) = basisFunsDer t p x span := by
+  unfold basisFunsDer
+  simp only
+  rw [basisFuns_shift t n L hper (p - 1) span (by omega) x]
+  have hs : ∀ j, derSaved t p (span + n) (basisFuns t (p - 1) x span) j
+      = derSaved t p span (basisFuns t (p - 1) x span) j := by
+    intro j
+    simp only [derSaved]
+    have e1 : span + n + j + 1 = span + j + 1 + n := by omega
+    have e2 : span + j + 1 + n - p = span + j + 1 - p + n := by omega
+    rw [e1, e2, hper, hper]
+    congr 1
+    ring
+  simp only [hs]
+
+/-! ### uniform knots: closed forms of the triangle (uniform-cubic fast path) -/
+
+open PygyroVerif.CubicUniform
+
+theorem levels_uniform3 (left right : ℕ → K) (o dx : K) (hdx : dx ≠ 0)
+    (hl0 : left 0 = o * dx) (hl1 : left 1 = (o + 1) * dx) (hl2 : left 2 = (o + 2) * dx)
+    (hr0 : right 0 = (1 - o) * dx) (hr1 : right 1 = (2 - o) * dx) (hr2 : right 2 = (3 - o) * dx) :
+    levels left right 3 = cuBasisFuns o := by
+  simp only [levels, innerLoop, Nat.reduceAdd, Nat.reduceSub, Nat.sub_zero, Nat.sub_self, zero_add,
+    hl0, hl1, hl2, hr0, hr1, hr2, cuBasisFuns]
+  have d1 : (1 - o) * dx + o * dx = dx := by ring
+  have d2a : (1 - o) * dx + (o + 1) * dx = 2 * dx := by ring
+  have d2b : (2 - o) * dx + o * dx = 2 * dx := by ring
+  have d3a : (1 - o) * dx + (o + 2) * dx = 3 * dx := by ring
+  have d3b : (2 - o) * dx + (o + 1) * dx = 3 * dx := by ring
+  have d3c : (3 - o) * dx + o * dx = 3 * dx := by ring
+  simp only [d1, d2a, d2b, d3a, d3b, d3c, List.cons.injEq, and_true]
+  refine ⟨?_, ?_, ?_, ?_⟩
+  all_goals field_simp
+  all_goals try ring
+
+theorem levels_uniform2 (left right : ℕ → K) (o dx : K) (hdx : dx ≠ 0)
+    (hl0 : left 0 = o * dx) (hl1 : left 1 = (o + 1) * dx)
+    (hr0 : right 0 = (1 - o) * dx) (hr1 : right 1 = (2 - o) * dx) :
+    levels left right 2 = [(1 - o) * (1 - o) / 2, (1 + 2 * o - 2 * o * o) / 2, o * o / 2] := by
+  simp only [levels, innerLoop, Nat.reduceAdd, Nat.reduceSub, Nat.sub_zero, Nat.sub_self, zero_add,
+    hl0, hl1, hr0, hr1]
+  have d1 : (1 - o) * dx + o * dx = dx := by ring
+  have d2a : (1 - o) * dx + (o + 1) * dx = 2 * dx := by ring
+  have d2b : (2 - o) * dx + o * dx = 2 * dx := by ring
+  simp only [d1, d2a, d2b, List.cons.injEq, and_true]
+  refine ⟨?_, ?_, ?_⟩
+  all_goals field_simp
+  all_goals try ring
+
+/-- `left`/`right` of the uniform knot vector in terms of the offset of the cubic path -/
+theorem uniform_left_right (xmin dx : K) (hdx : dx ≠ 0) (s : ℕ) (x : K) (k : ℕ) (hk : k ≤ 3) :
+    leftOf (uniformKnots xmin dx) (s + 3) x k = ((x - xmin) / dx - (s : K) + (k : K)) * dx ∧
+    rightOf (uniformKnots xmin dx) (s + 3) x k = ((k : K) + 1 - ((x - xmin) / dx - (s : K))) * dx := by
+  simp only [leftOf, rightOf, uniformKnots]
+  have : ((s + 3 - k : ℕ) : K) = (s : K) + 3 - (k : K) := by
+    rw [Nat.cast_sub (by omega)]; push_cast; ring
+  rw [this]
+  push_cast
+  constructor <;> (field_simp; ring)
+
+theorem uniformKnots_strictMono (xmin dx : K) (hdx : 0 < dx) : StrictMono (uniformKnots xmin dx) := by
+  intro a b hab
+  simp only [uniformKnots]
+  have : (a : K) < (b : K) := by exact_mod_cast hab
+  nlinarith
+
+
 /-! ### the span search -/
 
 /-- Invariant of the `while` loop of `nu_find_span`: with `t low ≤ x < t high`, `low < high` and fuel
@@ -515,5 +714,147 @@ theorem U_deriv (D : R → R) (hadd : ∀ u v, D (u + v) = D u + D v)
       (((k:R) + m + 1) * (U a b e k m * e k m)) * (hinv (k+1) m)
 
 end deriv
+
+/-! ### A2.2 in `K[X]`: the cell polynomials and their derivatives -/
+
+section poly
+open Polynomial
+variable {K : Type*} [Field K] [LinearOrder K] [IsStrictOrderedRing K]
+
+theorem levels_getD_eq_U (left right : ℕ → K) :
+    ∀ (j k m : ℕ), k + m = j →
+      (levels left right j).getD m 0 = U left right (fun k m => (left k + right m)⁻¹) k m := by
+  intro j
+  induction j with
+  | zero =>
+    intro k m h
+    have hk : k = 0 := by omega
+    have hm : m = 0 := by omega
+    subst hk; subst hm
+    simp [levels, U]
+  | succ j ih =>
+    intro k m h
+    simp only [levels]
+    rw [innerLoop_getD, levels_length]
+    cases m with
+    | zero =>
+      have hk : k = j + 1 := by omega
+      subst hk
+      simp only [if_true, Nat.add_eq_zero_iff, one_ne_zero, and_false, if_false, zero_add, Nat.sub_zero]
+      rw [ih j 0 (by omega)]
+      simp only [U]
+      rw [div_eq_mul_inv, add_comm (right 0) (left j)]
+    | succ m =>
+      rw [if_neg (by omega), if_pos (by omega)]
+      simp only [zero_add, Nat.add_sub_cancel]
+      cases k with
+      | zero =>
+        have hm : m = j := by omega
+        subst hm
+        rw [if_neg (by omega), add_zero, ih 0 m (by omega)]
+        simp only [U, Nat.sub_self]
+        rw [div_eq_mul_inv, add_comm (right m) (left 0)]
+      | succ k =>
+        have hj : j = k + 1 + m := by omega
+        subst hj
+        rw [if_pos (by omega), ih (k+1) m (by omega), ih k (m+1) (by omega)]
+        have e1 : k + 1 + m - m = k + 1 := by omega
+        have e2 : k + 1 + m - (m + 1) = k := by omega
+        simp only [U, e1, e2]
+        rw [div_eq_mul_inv, div_eq_mul_inv, add_comm (right m) (left (k+1)), add_comm (right (m+1)) (left k)]
+
+section
+variable {R S : Type*} [CommRing R] [CommRing S]
+theorem U_map (φ : R →+* S) (a b : ℕ → R) (e : ℕ → ℕ → R) :
+    ∀ k m, φ (U a b e k m) = U (fun k => φ (a k)) (fun m => φ (b m)) (fun k m => φ (e k m)) k m
+  | 0, 0 => by simp [U]
+  | 0, m+1 => by simp only [U, map_mul]; rw [U_map φ a b e 0 m]
+  | k+1, 0 => by simp only [U, map_mul]; rw [U_map φ a b e k 0]
+  | k+1, m+1 => by
+    simp only [U, map_mul, map_add]
+    rw [U_map φ a b e (k+1) m, U_map φ a b e k (m+1)]
+end
+
+/-- `left[k]`, `right[m]` and the (constant) reciprocal denominators of A2.2 as polynomials in `x` -/
+noncomputable def aX (t : ℕ → K) (span : ℕ) : ℕ → K[X] := fun k => X - C (t (span - k))
+noncomputable def bX (t : ℕ → K) (span : ℕ) : ℕ → K[X] := fun m => C (t (span + 1 + m)) - X
+noncomputable def eX (t : ℕ → K) (span : ℕ) : ℕ → ℕ → K[X] := fun k m => C ((t (span + 1 + m) - t (span - k))⁻¹)
+
+/-- the polynomial of basis function `r` (of the `p+1` active ones) on the cell `span`: A2.2 run in `K[X]` -/
+noncomputable def cellPoly (t : ℕ → K) (span p r : ℕ) : K[X] := U (aX t span) (bX t span) (eX t span) (p - r) r
+
+/-- evaluation of the triangle in `K[X]` = the triangle of the model at `x` -/
+theorem U_poly_eval (t : ℕ → K) (span : ℕ) (x : K) (k m : ℕ) :
+    (U (aX t span) (bX t span) (eX t span) k m).eval x = (levels (leftOf t span x) (rightOf t span x) (k + m)).getD m 0 := by
+  rw [levels_getD_eq_U _ _ (k + m) k m rfl]
+  have h := U_map (evalRingHom x) (aX t span) (bX t span) (eX t span) k m
+  simp only [coe_evalRingHom] at h
+  rw [h]
+  have ha : (fun k => eval x (aX t span k)) = leftOf t span x := by
+    funext k; simp [aX, leftOf]
+  have hb : (fun m => eval x (bX t span m)) = rightOf t span x := by
+    funext m; simp [bX, rightOf]
+  have he : (fun k m => eval x (eX t span k m)) = (fun k m => (leftOf t span x k + rightOf t span x m)⁻¹) := by
+    funext k m
+    simp only [eX, eval_C, leftOf, rightOf]
+    congr 1; ring
+  rw [ha, hb, he]
+
+theorem cellPoly_eval (t : ℕ → K) (span p r : ℕ) (hr : r ≤ p) (x : K) :
+    (cellPoly t span p r).eval x = (basisFuns t p x span).getD r 0 := by
+  unfold cellPoly basisFuns
+  rw [U_poly_eval, Nat.sub_add_cancel hr]
+
+theorem getD_map_range (f : ℕ → K) (n r : ℕ) (hr : r < n) : ((List.range n).map f).getD r 0 = f r := by
+  simp [List.getD_eq_getElem?_getD, hr]
+
+/-- the degree-lowering output is the derivative of the cell polynomial -/
+theorem cellPoly_derivative_eval (t : ℕ → K) (ht : Monotone t) (span p r : ℕ) (hcell : t span < t (span + 1))
+    (hr : r ≤ p) (x : K) :
+    (derivative (cellPoly t span p r)).eval x = (basisFunsDer t p x span).getD r 0 := by
+  have hinv : ∀ k m, eX t span k m * (aX t span k + bX t span m) = 1 := by
+    intro k m
+    simp only [eX, aX, bX]
+    have h1 : t (span - k) ≤ t span := ht (by omega)
+    have h2 : t (span + 1) ≤ t (span + 1 + m) := ht (by omega)
+    have hne : t (span + 1 + m) - t (span - k) ≠ 0 := ne_of_gt (by linarith)
+    have : X - C (t (span - k)) + (C (t (span + 1 + m)) - X) = C (t (span + 1 + m) - t (span - k)) := by
+      rw [C_sub]; ring
+    rw [this, ← C_mul, inv_mul_cancel₀ hne, C_1]
+  have hd := U_deriv (fun q : K[X] => derivative q) (fun u v => derivative_add) (fun u v => derivative_mul)
+    (aX t span) (bX t span) (eX t span)
+    (fun k => by simp [aX]) (fun m => by simp [bX]) (fun k m => by simp [eX]) hinv (by simp) (p - r) r
+  unfold cellPoly
+  rw [hd, Nat.sub_add_cancel hr, basisFunsDer, getD_map_range _ _ _ (by omega)]
+  simp only [eval_mul, eval_sub, eval_natCast]
+  have hP : (p : K) * eval x (P (aX t span) (bX t span) (eX t span) (p - r) r)
+      = if r = 0 then 0 else derSaved t p span (basisFuns t (p - 1) x span) (r - 1) := by
+    cases r with
+    | zero => simp [P]
+    | succ r' =>
+      rw [if_neg (by omega)]
+      simp only [P, eval_mul, U_poly_eval, Nat.add_sub_cancel, derSaved, basisFuns, eX, eval_C]
+      have e1 : p - (r' + 1) + r' = p - 1 := by omega
+      have e2 : span - (p - (r' + 1)) = span + r' + 1 - p := by omega
+      have e3 : span + 1 + r' = span + r' + 1 := by omega
+      rw [e1, e2, e3, div_eq_mul_inv]; ring
+  have hQ : (p : K) * eval x (Q (aX t span) (bX t span) (eX t span) (p - r) r)
+      = if r < p then derSaved t p span (basisFuns t (p - 1) x span) r else 0 := by
+    by_cases hlt : r < p
+    · rw [if_pos hlt]
+      obtain ⟨k', hk'⟩ : ∃ k', p - r = k' + 1 := ⟨p - r - 1, by omega⟩
+      rw [hk']
+      simp only [Q, eval_mul, U_poly_eval, derSaved, basisFuns, eX, eval_C]
+      have e1 : k' + r = p - 1 := by omega
+      have e2 : span - k' = span + r + 1 - p := by omega
+      have e3 : span + 1 + r = span + r + 1 := by omega
+      rw [e1, e2, e3, div_eq_mul_inv]; ring
+    · rw [if_neg hlt]
+      have : p - r = 0 := by omega
+      rw [this]; simp [Q]
+  rw [mul_sub, hP, hQ]
+
+
+end poly
 
 end PygyroVerif.BSpline
